@@ -9,7 +9,14 @@ valid and invalid label/section/alignment/data API calls on an Assembler, and ha
 CodeHolder (kInvalidId, label_count()+k, 0xFFFFFFFE, a label of another CodeHolder, an already bound label) to every
 label-taking entry point of Assembler, Builder and Compiler (x86 and AArch64) in the middle of valid call streams: refused,
 handler called once (also when it throws), node list / cursor / bytes / counts untouched, finalized output equal to a twin
-emitter that never got the invalid calls."""
+emitter that never got the invalid calls.
+Round 12 dimensions: register ids of the VIRTUAL range (>= 256) and Mem::set_reg_home() in every operand position (the Compiler
+job owns a few real virtual registers; a non-existent virtual id it accepts must make finalize() fail and report once); the
+handler attached to the EMITTER instead of the CodeHolder, and emitters that leave their holder (detach / reset / destruction),
+are used while detached and go on with a fresh holder; the Assembler WITHOUT strict validation (operand kinds kept) under the
+same failure oracles; a second Builder/Compiler that gets only the failing lines and must finalize to a fresh emitter's code;
+invalid alignment / size / type / repeat arguments with valid labels on all six emitters; error-handler ROUTING over random
+attachment histories (drv_api14 namespace route)."""
 import collections
 import json
 import multiprocessing
@@ -26,23 +33,41 @@ IMMS = [0, 1, -1, 127, 128, -128, -129, 255, 256, 32767, 32768, 65535, 65536, -3
 
 
 INVALID_REG_TYPES = [0, 1, 7, 8, 9, 10, 14, 15, 18, 19, 20, 21, 22, 23, 24]
+# ids of the virtual-register range (Operand::kVirtIdMin = 256 ..): 256..259 are real in the Compiler job (drv_reject kRealVirt: gp32,
+# gp-ptr, xmm, k), every other one names nothing anywhere
+VIRT_IDS = [256, 257, 258, 259, 260, 261, 300, 4096, 0x7FFFFFFF, 0x80000000, 0xFFFFFFFE, 0xFFFFFFFF]
+REAL_VIRT = {"gp32": 256, "gp64": 257, "xmm": 258, "k": 259}
+VIRT_RATE = {"asm": 14, "builder": 14, "compiler": 4}     # one id in N is drawn from the virtual range
 
 
-def rand_reg(rng):
+def reg_id(rng, emitter="asm", rtype=None):
+    if rng.chance(1, VIRT_RATE[emitter]):
+        if emitter == "compiler" and rtype in REAL_VIRT and rng.chance(1, 2):
+            return REAL_VIRT[rtype]
+        return rng.choice(VIRT_IDS)
+    return rng.choice(INTERESTING_IDS)
+
+
+def rand_reg(rng, emitter="asm"):
     if rng.chance(1, 10):
-        return ("Rn", rng.choice(INVALID_REG_TYPES), rng.choice(INTERESTING_IDS))
-    return ("R", rng.choice(RTYPES), rng.choice(INTERESTING_IDS) if rng.chance(1, 2) else rng.below(16))
+        return ("Rn", rng.choice(INVALID_REG_TYPES), reg_id(rng, emitter))
+    t = rng.choice(RTYPES)
+    return ("R", t, reg_id(rng, emitter, t) if rng.chance(1, 2) else rng.below(16))
 
 
-def rand_mem(rng, mode):
+def rand_mem(rng, mode, emitter="asm"):
     def part():
         k = rng.below(12)
         if k == 0:
             return None
         if k == 1:
-            return ("#%d" % rng.below(32), rng.choice(INTERESTING_IDS))
+            return ("#%d" % rng.below(32), reg_id(rng, emitter))
         if k < 6:
-            return (rng.choice(["gp32", "gp64", "gp16", "xmm", "ymm", "zmm", "rip", "gp8lo", "k", "sreg"]), rng.choice(INTERESTING_IDS))
+            t = rng.choice(["gp32", "gp64", "gp16", "xmm", "ymm", "zmm", "rip", "gp8lo", "k", "sreg"])
+            return (t, reg_id(rng, emitter, t))
+        if rng.chance(1, VIRT_RATE[emitter]):
+            t = "gp64" if mode == 64 else "gp32"
+            return (t, reg_id(rng, emitter, t))
         return (("gp64" if mode == 64 else "gp32"), rng.below(16 if mode == 64 else 8))
     base = part()
     if rng.chance(1, 8):
@@ -51,15 +76,16 @@ def rand_mem(rng, mode):
         base = ("labelraw", rng.choice([0, 1, 2, 50, 1000, 0x7FFFFFFF, 0xFFFFFFFE, 0xFFFFFFFF]))
     return ("M", dict(size=rng.choice([0, 1, 2, 4, 8, 16, 32, 64, 6, 10, 3, 5, 7, 9, 15, 128, 255]), base=base, index=part() if rng.chance(1, 2) else None,
                       shift=rng.below(4), disp=rng.choice(IMMS), seg=rng.choice([0, 0, 0, 1, 2, 3, 4, 5, 6, 7]), bcst=rng.choice([0, 0, 0, 1, 2, 3, 4, 5, 6, 7]),
-                      addr=rng.choice(["default", "default", "abs", "rel"])))
+                      addr=rng.choice(["default", "default", "abs", "rel"]),
+                      home=1 if (base and base[0] not in ("label", "labelraw") and rng.chance(1, 8)) else 0))
 
 
-def rand_operand(rng, mode):
+def rand_operand(rng, mode, emitter="asm"):
     k = rng.below(10)
     if k < 4:
-        return rand_reg(rng)
+        return rand_reg(rng, emitter)
     if k < 7:
-        return rand_mem(rng, mode)
+        return rand_mem(rng, mode, emitter)
     if k == 7:
         return ("I", rng.choice(IMMS))
     if k == 8:
@@ -78,7 +104,7 @@ def op_token(op):
         m = op[1]
         b = m["base"] or ("none", 0)
         i = m["index"] or ("none", 0)
-        return "M:%d:%s:%d:%s:%d:%d:%d:%d:%d:%s" % (m["size"], b[0], b[1], i[0], i[1], m["shift"], m["disp"], m["seg"], m["bcst"], m["addr"])
+        return "M:%d:%s:%d:%s:%d:%d:%d:%d:%d:%s:%d" % (m["size"], b[0], b[1], i[0], i[1], m["shift"], m["disp"], m["seg"], m["bcst"], m["addr"], m.get("home", 0))
     return G.op_token(op)
 
 
@@ -101,8 +127,14 @@ def standard(c):
 
         if op[0] in ("Rn", "Lraw", "N"):
             return False
+        if op[0] == "R" and op[2] >= 256:
+            return False
         if op[0] == "M":
+            if op[1].get("home"):
+                return False
             for k in ("base", "index"):
+                if op[1][k] and op[1][k][1] >= 256:
+                    return False
                 r = op[1][k]
                 if r and (r[0].startswith("#") or r[0] in ("label", "labelraw")):
                     return False
@@ -111,10 +143,12 @@ def standard(c):
     return True
 
 
-def gen_cases(rng, forms, mode, n):
+def gen_cases(rng, forms, mode, n, emitter="asm", kinds_kept=False):
+    """kinds_kept: every operand keeps its kind and register / address-register TYPES; ids, sizes, segments, broadcasts,
+    displacements, immediates, label ids, option bits, the extra register and the instruction id are arbitrary (the input space of
+    the property without strict validation)"""
     gen = G.Gen(rng)
     cases = []
-    names = sorted(set(f["name"] for f in forms))
     while len(cases) < n:
         f = rng.choice(forms)
         if mode not in G.modes_of(f):
@@ -128,6 +162,8 @@ def gen_cases(rng, forms, mode, n):
         name = f["name"]
         s = rng.below(100)
         tag = "valid"
+        if kinds_kept and 55 <= s < 78:
+            s = 10 + (s - 55)      # no random operand lists / operand counts
         if s < 10:
             pass
         elif s < 55 and ops:
@@ -137,22 +173,30 @@ def gen_cases(rng, forms, mode, n):
                 i = rng.below(len(ops))
                 op = ops[i]
                 k = rng.below(8)
-                if op[0] == "R" and k < 3:
-                    ops[i] = ("R", op[1], rng.choice(INTERESTING_IDS))
+                if kinds_kept and k >= 5:
+                    k = rng.below(5)
+                if op[0] == "R" and (k < 3 or kinds_kept):
+                    ops[i] = ("R", op[1], reg_id(rng, emitter, op[1]))
                 elif op[0] == "R" and k < 5:
                     ops[i] = ("R", rng.choice(RTYPES), op[2])
                 elif op[0] == "M" and k < 5:
                     m = dict(op[1])
-                    what = rng.below(10)
-                    if what >= 7:
-                        # keep the register type, change only the id (ids that do not exist in this mode, REX/EVEX extension bits)
+                    what = rng.below(11)
+                    if kinds_kept and what in (0, 1):
+                        what = 7 + what
+                    if what == 10:
+                        m["home"] = 1
+                        if m["base"] and m["base"][0] not in ("label", "labelraw") and not m["base"][0].startswith("#") and rng.chance(1, 2):
+                            m["base"] = (m["base"][0], reg_id(rng, emitter, m["base"][0]))
+                    elif what >= 7:
+                        # keep the register type, change only the id (ids that do not exist in this mode, REX/EVEX extension bits, virtual-range ids)
                         k2 = "base" if (what == 7 or not m["index"]) else "index"
                         if m[k2] and not m[k2][0].startswith("#") and m[k2][0] not in ("label", "labelraw"):
-                            m[k2] = (m[k2][0], rng.choice(INTERESTING_IDS))
+                            m[k2] = (m[k2][0], reg_id(rng, emitter, m[k2][0]))
                     elif what == 0:
-                        m["base"] = rand_mem(rng, mode)[1]["base"]
+                        m["base"] = rand_mem(rng, mode, emitter)[1]["base"]
                     elif what == 1:
-                        m["index"] = rand_mem(rng, mode)[1]["index"]
+                        m["index"] = rand_mem(rng, mode, emitter)[1]["index"]
                     elif what == 2:
                         m["seg"] = rng.below(8)
                     elif what == 3:
@@ -164,19 +208,21 @@ def gen_cases(rng, forms, mode, n):
                     else:
                         m["addr"] = rng.choice(["abs", "rel"])
                     ops[i] = ("M", m)
-                elif op[0] == "I" and k < 5:
+                elif op[0] == "I" and (k < 5 or kinds_kept):
                     ops[i] = ("I", rng.choice(IMMS))
-                else:
-                    ops[i] = rand_operand(rng, mode)
+                elif op[0] == "L" and kinds_kept:
+                    ops[i] = rng.choice([("L", 0), ("L", 1), ("Lraw", rng.choice([0, 5, 999999, 0xFFFFFFFE, 0xFFFFFFFF]))])
+                elif not kinds_kept:
+                    ops[i] = rand_operand(rng, mode, emitter)
         elif s < 70:
             tag = "random-ops"
-            ops = [rand_operand(rng, mode) for _ in range(rng.below(7))]
+            ops = [rand_operand(rng, mode, emitter) for _ in range(rng.below(7))]
         elif s < 78:
             tag = "count"
             if rng.chance(1, 2) and ops:
                 ops = ops[:rng.below(len(ops))]
             else:
-                ops = (ops + [rand_operand(rng, mode) for _ in range(3)])[:6]
+                ops = (ops + [rand_operand(rng, mode, emitter) for _ in range(3)])[:6]
         elif s < 84:
             tag = "bad-id"
             name = "#%d" % rng.choice([0, 5000, 65535, 0x7FFFFFFF, 0xFFFFFFFF, 1831, 2000 + rng.below(3000)])
@@ -185,7 +231,8 @@ def gen_cases(rng, forms, mode, n):
             opts = rng.next() & 0xFFFFFFFF if rng.chance(1, 2) else (1 << rng.below(32))
         else:
             tag = "extra"
-            extra = (rng.choice(["k", "gp32", "gp64", "xmm", "gp16", "sreg"]), rng.choice(INTERESTING_IDS))
+            et = rng.choice(["k", "gp32", "gp64", "xmm", "gp16", "sreg"])
+            extra = (et, reg_id(rng, emitter, et))
             if rng.chance(1, 2):
                 opts = rng.choice([G.OPT_REP, G.OPT_REPNE, G.OPT_ZMASK, G.OPT_ER | G.OPT_RU])
         if rng.chance(1, 12):
@@ -198,15 +245,18 @@ def gen_cases(rng, forms, mode, n):
 
 
 def worker(arg):
-    shard, seed, n, exe, emitter, handler, mode = arg
+    shard, seed, n, exe, emitter, handler, mode, cfg = arg
+    own, reattach, validate = cfg["own"], cfg["reattach"], cfg["validate"]
     forms = isadb.x86_forms()
     byname = collections.defaultdict(list)
     for f in forms:
         byname[f["name"]].append(f)
     rng = common.Rng(seed).fork("c14-%d-%s-%s-%d" % (shard, emitter, handler, mode))
-    cases = gen_cases(rng, forms, mode, n)
+    cases = gen_cases(rng, forms, mode, n, emitter, kinds_kept=not validate)
     lines = [case_line(c) for c in cases]
-    extra = ["--emitter", emitter, "--handler", handler, "--arch", "x64" if mode == 64 else "x86"]
+    extra = ["--emitter", emitter, "--handler", handler, "--arch", "x64" if mode == 64 else "x86", "--handler-on", "emitter" if own else "holder",
+             "--validate", "1" if validate else "0", "--reattach", str(reattach), "--pass2", "1", "--iso", str(cfg.get("iso", 0))]
+    etag = emitter if validate else emitter + "-novalidate"
     rc, out, err = c01._emit(exe, lines, extra)
     viol = []
     stats = collections.Counter()
@@ -227,7 +277,7 @@ def worker(arg):
         if rep3:
             top = next((fr for fr in rep3["frames"] if "asmjit" in fr), rep3["frames"][0] if rep3["frames"] else "?").split("(")[0].split(" /")[0][:90]
         kind = (rep3 or {"kind": "crash rc=%d" % rc})["kind"].split(" on ")[0].split(" @")[0][:60]
-        viol.append(("sanitizer:%s:%s" % (kind, top), "undefined behaviour while handling input (%s, reproduces alone: %s): %s; case: %s" % (emitter, single, rep3, lines[lo]), lines[lo]))
+        viol.append(("sanitizer:%s:%s" % (kind, top), "undefined behaviour while handling input (%s, %s, reproduces alone: %s): %s; case: %s" % (emitter, " ".join(extra[2:]), single, rep3, lines[lo]), lines[lo]))
         return dict(viol=viol, stats={}, n=0, distinct=[], samples=[], fails=0)
     recs = [json.loads(l) for l in out.decode().splitlines()]
     final = recs[-1]
@@ -239,11 +289,36 @@ def worker(arg):
     succ_cases, succ_recs = [], []
     for c, r in zip(cases, recs):
         line = case_line(c)
+        nvirt = sum(1 for op in c["ops"] if op[0] in ("R", "Rn") and op[2] >= 256) + \
+            sum(1 for op in c["ops"] if op[0] == "M" for k in ("base", "index") if op[1][k] and op[1][k][0] not in ("label", "labelraw") and op[1][k][1] >= 256) + \
+            (1 if c["extra"] and c["extra"][1] >= 256 else 0)
+        nhome = sum(1 for op in c["ops"] if op[0] == "M" and op[1].get("home"))
+        lead = c["ops"][:next((i for i, op in enumerate(c["ops"]) if op[0] in ("N", "Rn")), len(c["ops"]))]
+        # ... in an operand the validator looks at (a register / address register of a defined type, not behind a gap, not the extra register)
+        nvirt_lead = sum(1 for op in lead if op[0] == "R" and op[2] >= 256) + \
+            sum(1 for op in lead if op[0] == "M" for k in ("base", "index") if op[1][k] and op[1][k][0] not in ("label", "labelraw") and not op[1][k][0].startswith("#") and op[1][k][1] >= 256)
+        if bool(nvirt) != bool(r["virt"]):
+            raise common.HarnessError("driver and generator disagree on virtual-range ids: %s -> %s" % (line, r))
+        stats["calls_with_virtual_range_id:" + emitter] += 1 if nvirt else 0
+        stats["calls_with_real_virtual_register"] += 1 if r["virt"] == 1 else 0
+        stats["calls_with_reg_home_operand:" + emitter] += 1 if nhome else 0
+        if not validate:
+            stats["novalidate_calls"] += 1
+        if own:
+            stats["calls_with_handler_on_emitter"] += 1
         if r["err"] != 0:
             stats["failed"] += 1
+            if not validate:
+                stats["novalidate_failed"] += 1
+            if nvirt:
+                stats["virtual_range_id_refused:" + emitter] += 1
+            if nhome:
+                stats["reg_home_refused:" + emitter] += 1
             sig = ",".join(op[0] if op[0] != "R" else op[1] for op in c["ops"])
-            distinct.add((emitter, r["err"], c["variant"], sig))
+            distinct.add((etag, r["err"], c["variant"], sig) + (("virt",) if nvirt else ()) + (("home",) if nhome else ()) + (("own",) if own else ()))
             problems = []
+            if r["cur"]:
+                problems.append("moved-cursor")
             if r["db"]:
                 problems.append("appended-bytes")
             if r["dl"]:
@@ -265,23 +340,30 @@ def worker(arg):
             if handler == "throw" and not r["threw"]:
                 problems.append("throwing-handler-not-propagated")
             for p in problems:
-                viol.append(("failed-call:%s:%s" % (p, emitter), "failed call (error %d) %s: %s -> %s" % (r["err"], p, line, r), line))
+                viol.append(("failed-call:%s:%s" % (p, etag), "failed call (error %d, %s) %s: %s -> %s" % (r["err"], " ".join(extra[2:10]), p, line, r), line))
             if len(samples) < 2:
                 samples.append({"case": line, "emitter": emitter, "handler": handler, "record": r})
         else:
             stats["succeeded"] += 1
+            if nvirt_lead and emitter != "compiler" and validate:
+                # only the Compiler knows virtual registers: Assembler and Builder validate without ValidationFlags::kEnableVirtRegs
+                viol.append(("success:virtual-register-id-accepted:%s" % emitter, "a register id of the virtual range was accepted by an emitter that cannot allocate registers: %s -> %s" % (line, r), line))
+            if nvirt_lead and emitter == "compiler":
+                stats["virtual_range_id_recorded_by_compiler"] += 1
             if r["h"]:
                 viol.append(("success:handler-called:%s" % emitter, "successful call invoked the error handler: %s" % line, line))
             if r["oneshot"]:
                 viol.append(("success:left-one-shot-state:%s" % emitter, "successful call left one-shot state: %s" % line, line))
-            lead = c["ops"][:next((i for i, op in enumerate(c["ops"]) if op[0] in ("N", "Rn")), len(c["ops"]))]   # operands behind a gap (none / undefined register type) are a known class
-            bad_field = [("segment", op[1]["seg"]) for op in lead if op[0] == "M" and op[1]["seg"] > 6] + \
-                        [("broadcast", op[1]["bcst"]) for op in lead if op[0] == "M" and op[1]["bcst"] > 6]
+            bad_field = [] if not validate else \
+                ([("segment", op[1]["seg"]) for op in lead if op[0] == "M" and op[1]["seg"] > 6] +
+                 [("broadcast", op[1]["bcst"]) for op in lead if op[0] == "M" and op[1]["bcst"] > 6])
             if bad_field:
                 # segment ids 1..6 are ES..GS, broadcasts 1..6 are {1to2}..{1to64}: 7 names nothing in either field
                 viol.append(("success:undefined-%s-id-accepted:%s" % (bad_field[0][0], emitter),
                              "a memory operand with %s id %d (undefined) was accepted%s: %s" % (bad_field[0][0], bad_field[0][1], " and %s appended" % r["bytes"] if r.get("bytes") else "", line), line))
-            if emitter == "asm":
+            if emitter == "asm" and not validate:
+                stats["novalidate_succeeded_not_judged"] += 1      # without the validator "a correct instruction" is the caller's business (kinds kept, values arbitrary)
+            elif emitter == "asm":
                 if standard(c) and not c["name"].startswith("#") and not (c["opts"] & (G.OPT_MODMR | G.OPT_MODRM)):
                     cands = xdec.candidates(c, byname, mode)
                     if cands:
@@ -304,10 +386,12 @@ def worker(arg):
         st2.pop("_distinct", None)
         known_opts = (G.OPT_SHORT | G.OPT_LONG | G.OPT_MODMR | G.OPT_MODRM | G.OPT_VEX3 | G.OPT_VEX | G.OPT_EVEX | G.OPT_LOCK | G.OPT_REP | G.OPT_REPNE |
                       G.OPT_XACQUIRE | G.OPT_XRELEASE | G.OPT_ER | G.OPT_SAE | G.OPT_ZMASK | G.OPT_REX)
-        by_line = {case_line(c): c for c in succ_cases}
+        by_line = {G.case_line(c): c for c in succ_cases}      # (the C01 oracles name a case by the C01 case line)
         for k, what, line in v2:
             c = by_line.get(line)
-            if c is not None and not k.startswith("validator-gap:"):
+            if k in ("validator-gap:base-and-index-of-different-address-size", "validator-gap:vector-index-with-16-bit-base"):
+                k = "validator-gap:memory-operand-registers-not-validated"        # C01's finer classes of the same gap
+            elif c is not None and not k.startswith("validator-gap:"):
                 areg = "gp64" if mode == 64 else "gp32"
                 alt = "gp32" if mode == 64 else "gp16"
                 bad_mem = False
@@ -348,6 +432,32 @@ def worker(arg):
             stats["probes"] += 1
         else:
             stats["finalize_errors"] += 1
+        # second emitter: only the failing lines, then the probe, finalized - against a fresh emitter of the same kind
+        stats["pass2_failing_lines_replayed"] += final["p2_lines"]
+        stats["pass2_lines_accepted_in_other_context"] += final["p2_accepted"]
+        cfgs = " ".join(extra[2:10])
+        if final["p2_fresh_fin"] != 0:
+            raise common.HarnessError("the probe program does not finalize on a fresh %s (%s)" % (emitter, final["p2_fresh_fin"]))
+        if final["p2_nodes_left"]:
+            viol.append(("residue:pass2-nodes-left:%s" % emitter, "%d nodes are left in a %s that only received %d failing calls (%s)" % (final["p2_nodes_left"], emitter, final["p2_lines"], cfgs), lines[-1]))
+        if final["p2_fin"] != 0:
+            viol.append(("residue:pass2-finalize-failed:%s" % emitter, "a %s that received %d failing calls and then the probe program fails to finalize with error %d (%s)" % (emitter, final["p2_lines"], final["p2_fin"], cfgs), lines[-1]))
+        else:
+            stats["pass2_programs_compared"] += 1
+            if final["p2_used"] != final["p2_fresh"]:
+                viol.append(("residue:pass2-probe-differs:%s" % emitter, "a %s that received %d failing calls and then the probe program finalizes to %s, a fresh one to %s (%s)" % (emitter, final["p2_lines"], final["p2_used"], final["p2_fresh"], cfgs), lines[-1]))
+        stats["iso_finalize_runs"] += final["iso_runs"]
+        stats["iso_with_nonexistent_virtual_id"] += final["iso_ghost"]
+        stats["iso_finalize_refused"] += final["iso_refused"]
+        for iv in final["iso_viol"]:
+            cl = lines[iv["case"]]
+            viol.append(("deferred:%s:%s%s" % (iv["problem"], emitter, ":handler-on-emitter" if own and iv["problem"].startswith("finalize-") else ""), "compiler accepted an instruction with a virtual-range register id%s; alone in a fresh function finalize() returned %d and called the handler %d times (%s): %s"
+                         % (" that names no virtual register" if iv["ghost"] else "", iv["fin"], iv["h"], handler, cl), cl))
+    stats["reattaches"] += final["reattaches"]
+    stats["detached_calls"] += final["detached_calls"]
+    for dv in final["detached_viol"]:
+        kind, what = dv.split("|", 1)
+        viol.append(("detached:%s:%s" % (kind, emitter), "%s (%s)" % (what, " ".join(extra[2:10])), lines[-1]))
     return dict(viol=viol[:3000], stats=dict(stats), n=len(cases), distinct=[str(d) for d in distinct], samples=samples)
 
 
@@ -359,15 +469,30 @@ def run(tier, args):
     per = int((4000 if tier == "quick" else 60000) * args.scale)
     jobs = []
     s = 0
-    for emitter, handlers in (("asm", ["return", "throw", "none"]), ("builder", ["return", "throw"]), ("compiler", ["return"])):
+    # handler placement and attachment history are spread over the repetitions of every (emitter, handler, mode) cell:
+    #   rep % 3 == 0: handler on the CodeHolder, one attachment;  1: handler on the EMITTER, re-attached every 500 calls;
+    #   2: handler on the CodeHolder, re-attached every 700 calls
+    for emitter, handlers in (("asm", ["return", "throw", "none"]), ("builder", ["return", "throw"]), ("compiler", ["return", "throw"])):
         for handler in handlers:
             for mode in (64, 32):
-                reps = (6 if emitter == "asm" else 2) if tier == "quick" else (16 if emitter == "asm" else 6)
+                reps = (6 if emitter == "asm" else 3 if emitter == "builder" else 2) if tier == "quick" else (16 if emitter == "asm" else 6)
                 for r in range(reps):
-                    jobs.append((s, chk.seed, per, exe, emitter, handler, mode))
+                    k = r % 3 if emitter != "compiler" else (r + (mode == 32) + (handler == "throw")) % 3
+                    cfg = dict(own=(k == 1 and handler != "none"), reattach=(max(40, int(500 * args.scale)) if k == 1 else max(40, int(700 * args.scale)) if k == 2 else 0), validate=True, iso=(400 if tier == "quick" else 3000))
+                    jobs.append((s, chk.seed, per, exe, emitter, handler, mode, cfg))
                     s += 1
+    # the Assembler without strict validation (what most users run): operand kinds kept, everything else arbitrary; same failure oracles
+    for handler in ("return", "throw"):
+        for mode in (64, 32):
+            for r in range(2 if tier == "quick" else 6):
+                cfg = dict(own=(r % 2 == 1), reattach=(max(40, int(900 * args.scale)) if r % 2 else 0), validate=False)
+                jobs.append((s, chk.seed, per, exe, "asm", handler, mode, cfg))
+                s += 1
+    import time
+    t0 = time.time()
     with multiprocessing.Pool(16) as pool:
         outs = pool.map(worker, jobs, chunksize=1)
+    phase = {"x86_emit_jobs_s": round(time.time() - t0, 1)}
     stats = collections.Counter()
     byk = collections.OrderedDict()
     distinct = set()
@@ -383,6 +508,7 @@ def run(tier, args):
     # API misuse scripts (Assembler) and label/section ARGUMENT probes (Assembler, Builder, Compiler with twins)
     api_n = 0
     label_n = 0
+    route_n = 0
     api_jobs = []
     for mode in ("x64", "x86", "a64"):
         for rep in range(4 if tier == "quick" else 40):
@@ -390,7 +516,15 @@ def run(tier, args):
             api_jobs.append((mode, [api_exe, "--arch", mode, "--seed", sd, "--ops", str(int((3000 if tier == "quick" else 20000) * args.scale))]))
             api_jobs.append((mode, [api_exe, "--arch", mode, "--seed", sd, "--ops", "0", "--label-steps", "90",
                                     "--label-scenarios", str(max(3, int((1500 if tier == "quick" else 6000) * args.scale)))]))
+            # error-handler routing over attachment histories
+            api_jobs.append((mode, [api_exe, "--arch", mode, "--seed", sd, "--ops", "0", "--route-steps", "60",
+                                    "--route-scenarios", str(max(6, int((400 if tier == "quick" else 3000) * args.scale)))]))
+        # (a detached Assembler asked to embed_data_array: crashes end the process, so it has its own small job)
+        api_jobs.append((mode, [api_exe, "--arch", mode, "--seed", str(chk.seed), "--ops", "0", "--route-steps", "40", "--route-danger", "1",
+                                "--route-scenarios", str(max(6, int(60 * args.scale)))]))
+    t0 = time.time()
     api_outs = common.parallel_map(lambda j: common.run_child(j[1], timeout=900), api_jobs)
+    phase["api_jobs_s"] = round(time.time() - t0, 1)
     for (mode, argv), (rc, out, err) in zip(api_jobs, api_outs):
         case = " ".join(argv[1:])
         rp = common.sanitizer_report(err)
@@ -398,13 +532,14 @@ def run(tier, args):
             top = "?"
             if rp:
                 top = next((fr for fr in rp["frames"] if "asmjit" in fr), "?").split("(")[0].split(" /")[0][:90]
-            byk.setdefault("api:sanitizer:%s:%s" % ((rp or {"kind": "crash rc=%d" % rc})["kind"].split(" on ")[0][:60], top), []).append(
+            byk.setdefault("api:sanitizer:%s:%s" % ((rp or {"kind": "crash rc=%d" % rc})["kind"].split(" on ")[0].split(" @")[0][:60], top), []).append(
                 ("API misuse script crashed (%s): %s" % (case, rp), case))
             continue
         res = json.loads(out.decode().strip().splitlines()[-1])
         api_n += res["ops"]
         for k, v in res["by_api"].items():
             stats["api_" + k] += v
+        route_n += res["by_api"].get("route.probes", 0)
         label_n += res["by_api"].get("lbl.outcome.refused", 0) + res["by_api"].get("lbl.outcome.deferred", 0) + res["by_api"].get("lbl.outcome.accepted", 0) + \
             res["by_api"].get("lbl.deferred.finalize-runs", 0)
         for v in res["violations"]:
@@ -416,12 +551,45 @@ def run(tier, args):
     # AArch64 half of the property: database forms with operand kinds kept and ids / lanes / shifts / immediates / offsets
     # perturbed out of range must be refused without residue (generator and driver shared with C02)
     from vlib.props import c02
+    t0 = time.time()
     a64cnt = c02.judge_refusals(chk, tier, args.scale)
+    phase["a64_refusal_sweep_s"] = round(time.time() - t0, 1)
+    # every dimension of the workload must have been observed (otherwise the run says nothing about it)
+    need = {
+        "failing calls with a virtual-range register id on the Assembler": stats["virtual_range_id_refused:asm"],
+        "failing calls with a virtual-range register id on the Builder": stats["virtual_range_id_refused:builder"],
+        "virtual-range register ids recorded by the Compiler": stats["virtual_range_id_recorded_by_compiler"],
+        "calls with a real virtual register (Compiler)": stats["calls_with_real_virtual_register"],
+        "isolated finalize runs with a non-existent virtual id": stats["iso_with_nonexistent_virtual_id"],
+        "calls with a register-home memory operand": stats["calls_with_reg_home_operand:asm"] + stats["calls_with_reg_home_operand:builder"] + stats["calls_with_reg_home_operand:compiler"],
+        "failing calls without strict validation": stats["novalidate_failed"],
+        "calls with the handler on the emitter": stats["calls_with_handler_on_emitter"],
+        "re-attachments": stats["reattaches"],
+        "calls on a detached emitter": stats["detached_calls"],
+        "pass-2 programs compared (Builder/Compiler fed only failing lines)": stats["pass2_programs_compared"],
+        "handler-routing probes": route_n,
+        "argument-error calls on Builder/Compiler (align)": stats["api_lbl.kind.bad-alignment"] + stats["api_lbl.kind.undefined-mode"],
+        "argument-error calls (embed size)": stats["api_lbl.kind.bad-size"],
+        "argument-error calls (undefined data type)": stats["api_lbl.kind.undefined-type"],
+        "argument-error calls (repeat overflow)": stats["api_lbl.kind.repeat-overflow"],
+        "misuse-script failures under a throwing handler": stats["api_script.failures-with-throwing-handler"],
+        "misuse scripts with the handler on the emitter": stats["api_script.runs-with-handler-on-emitter"],
+    }
+    missing = [k for k, v in need.items() if not v]
+    if missing and not chk.violations and args.scale >= 0.1:
+        raise common.HarnessError("dimensions that observed nothing: " + "; ".join(missing))
     chk.coverage.update({
         "a64_refusal_sweep": a64cnt,
-        "evaluations": n + api_n + a64cnt.get("a64_unencodable_cases", 0),
+        "round12_dimensions": need,
+        "phase_wall_s": phase,
+        "virtual_ids_and_reg_home": {k: v for k, v in stats.items() if k.startswith(("calls_with_virtual", "calls_with_real", "calls_with_reg_home", "virtual_range", "reg_home_refused", "iso_"))},
+        "novalidate": {k: v for k, v in stats.items() if k.startswith("novalidate")},
+        "attachment_histories": {"calls_with_handler_on_emitter": stats["calls_with_handler_on_emitter"], "reattaches": stats["reattaches"], "detached_calls": stats["detached_calls"],
+                                 "route_probes": route_n, "route": {k[10:]: v for k, v in stats.items() if k.startswith("api_route.")}},
+        "pass2": {k: v for k, v in stats.items() if k.startswith("pass2")},
+        "evaluations": n + api_n + a64cnt.get("a64_unencodable_cases", 0) + stats["pass2_failing_lines_replayed"] + stats["iso_finalize_runs"],
         "distinct_nontrivial": len(distinct),
-        "rule": "one evaluation = one public API call with generated (mostly invalid) input; distinct = failing calls by (emitter, error code, generator class, operand-kind signature) plus distinct (API, outcome) pairs of the misuse scripts and distinct (emitter, label-taking entry point, kind of non-existent label, outcome) of the label-argument probes; all counted cases are failing calls whose state deltas were checked",
+        "rule": "one evaluation = one public API call with generated (mostly invalid) input; distinct = failing calls by (emitter, error code, generator class, operand-kind signature) (the class also says: virtual-range id / register-home operand / handler on the emitter / no strict validation) plus distinct (API, outcome) pairs of the misuse scripts, distinct (emitter, entry point, kind of non-existent label or invalid argument, outcome) of the argument probes and distinct (emitter, handler placement and attachment state, entry point, error) of the routing probes; all counted cases are failing calls whose state deltas were checked",
         "samples": samples[:4],
         "emit_calls": n, "emit_failed": stats["failed"], "emit_succeeded": stats["succeeded"], "successes_judged_by_c01_oracles": stats["succeeded_judged"],
         "probe_programs_compared": stats["probes"], "builder_finalize_errors": stats["finalize_errors"],
@@ -430,6 +598,9 @@ def run(tier, args):
         "jobs": len(jobs),
     })
     chk.assumptions += [
+        "without strict validation only operand KINDS are kept fixed (register and address-register types included); successes there are not judged (the validator is what decides 'correct instruction'), failures and memory safety are",
+        "a Compiler may record an instruction whose virtual-range register id names no virtual register (the id is resolved by the register allocator): then finalize() of a function holding only that instruction must fail and report exactly once; an existing virtual register used with another register type is only watched for undefined behaviour",
+        "handler routing model: the emitter's own handler if one is set, else the handler of the CodeHolder it is attached to, else nobody (documented at BaseEmitter::error_handler())",
         "arbitrary operand KINDS on x86 only (AArch64 has no operand validator); AArch64: every database form with kinds kept and values perturbed out of range (the sweep shared with C02) plus the label/section/align/data API misuse scripts",
         "label ids created by the harness for the call (L:1) are not counted as residue; Builder/Compiler use kValidateIntermediate",
         "Builder/Compiler record embed_label / embed_label_delta / instructions / JumpAnnotation::add_label / invoke: a non-existent label id in such a node may be accepted at the call (exactly one node, handler silent) - then finalize() must fail and report exactly once; bind, embed_const_pool, label_node_of, section, new_named_label(parent) must refuse at the call on every emitter",
